@@ -355,6 +355,15 @@ def work_grammar(unit):
         if d:
             fails.append(Failure(PROP, "C08.meaning", {"command": exp["command"], "field": d[0][0], "hint": _hint(s)},
                                  {"driver": "c08", "sentence": s, "expected": _j(exp)}, _j(d[0][1]), _j(d[0][2])))
+    # parsing must not depend on what was parsed before: the ill-formed sentences are still rejected after this unit's
+    # (valid) sentences have gone through the same parser in the same process
+    for r in STRICT_REJECTS:
+        n += 1
+        st, cmd, err = parse_one(r)
+        if st == "ok":
+            fails.append(Failure(PROP, "C08.ill-formed-accepted", {"class": "after-other-commands", "command": cmd.command},
+                                 {"driver": "c08-rej", "sentence": r, "after": unit[0][0] if unit else None}, "BadCommand",
+                                 f"parsed as {cmd.command} after {len(unit)} valid sentences in this process"))
     return fails, n, kinds
 
 
@@ -535,6 +544,11 @@ def json_find_set(x):
             if r is not None:
                 return r
     return None
+
+
+# ill-formed sentences that no leniency finding covers: they must be rejected whatever was parsed before
+STRICT_REJECTS = ["a1 FETCH 1 BODY[MIME]", "a1 FETCH 1 BODY.PEEK[MIME]<0.10>", "a1 FETCH 1 BODY[1.BOGUS]", "a1 FETCH 1 BODY[HEADER.FIELDS]", "a1 FETCH 1 BODY[TEXT.1]",
+                  "a1 FETCH 1 (FLAGS BODY[MIME])", "a1 SEARCH OR ALL", "a1 STORE 1 +FLAG (x)", "a1 FETCH 1 RFC822.BOGUS", "a1 SEARCH SINCE 99-Jan-2020"]
 
 
 def core_sentences(tier):
